@@ -48,7 +48,7 @@ theorem ty_int (n : Int) : (Term.int n).typeOf = some .int := by rw [Term.int, t
 theorem ty_str (s : String) : (Term.str s).typeOf = some .str := by rw [Term.str, typeOf_node']; rfl
 theorem ty_bvc (v w : Nat) : (Term.bvc v w).typeOf = some (.bv w) := by rw [Term.bvc, typeOf_node']; rfl
 
-theorem frag_var (n : String) (τ : Ty) (h : reservedName n = false) : inHRFrag (Term.var n τ) = true := by
+theorem frag_var (n : String) (τ : Ty) (h : hrName n = true) : inHRFrag (Term.var n τ) = true := by
   rw [Term.var, Term.sym, inHRFrag_node]
   simp [fragNode, shapeOf_symbol, Sym.var, h]
 theorem frag_int (n : Int) : inHRFrag (Term.int n) = true := by
@@ -260,5 +260,128 @@ theorem frag_t7 : InHRFragN t7 := by
   have := and_xyn
   simp only [Term.mkAnd] at this
   simp [Term.mkAnd, this, isOk, leftNest, t7']
+
+/-! ## existential quantifier: `(exists i . (f(i) = i))` -/
+theorem sh_exists : shapeOf .exists_ = some (.quant "exists") := by decide
+theorem qo_exists : ∃ l, quantOf "exists" = some ("mgr.Exists", l) := of_map (by decide)
+def t8 : Term := Term.mkExists [Sym.var "i" .int] eqT
+theorem frag_t8 : InHRFrag t8 := by
+  rw [InHRFrag, t8, Term.mkExists, inHRFrag_node]
+  simp only [List.map_cons, List.map_nil, List.all_cons, List.all_nil, frag_eqT, id, Bool.and_true, Bool.true_and]
+  obtain ⟨l, qo⟩ := qo_exists
+  simp only [fragNode, sh_exists, qo, applyQuant]
+  simp [symsOf, Term.sym, Mk.Exists, Mk.create, liftMk, isOk, ty_eqT, Sym.var]
+  decide
+
+/-! ## prefix minus, concatenation, extraction: `((- b)::b)[0:3]` -/
+theorem sh_bvNeg : shapeOf .bvNeg = some (.prefixPar "-") := by decide
+theorem sh_bvConcat : shapeOf .bvConcat = some (.naryInfix "::") := by decide
+theorem sh_bvExtract : shapeOf .bvExtract = some .extract := by decide
+theorem uo_minus : ∃ l, unaryOf "-" = some ("self.UMinusOrBvNeg", l) := of_map (by decide)
+theorem io_concat : ∃ l, infixOf "::" = some ("mgr.BVConcat", l) := of_map (by decide)
+def negB : Term := .node .bvNeg [b] (.ints [4])
+def catB : Term := .node .bvConcat [negB, b] (.ints [8])
+def t9 : Term := .node .bvExtract [catB] (.ints [4, 0, 3])
+
+theorem iteLeaf_plain (n : Nat) (op : Op) (as : List Term) (p : Payload) (h : op ≠ .ite) :
+    Mk.iteLeaf n (.node op as p) = .node op as p := by
+  cases n with
+  | zero => rfl
+  | succ n =>
+    unfold Mk.iteLeaf
+    split
+    · rfl
+    · next heq => cases heq; exact absurd rfl h
+    · rfl
+theorem ty_negB : negB.typeOf = some (.bv 4) := by
+  rw [negB, typeOf_node']; simp only [List.map_cons, List.map_nil, b, ty_var]; decide
+theorem ty_catB : catB.typeOf = some (.bv 8) := by
+  rw [catB, typeOf_node']; simp only [List.map_cons, List.map_nil, b, ty_var, ty_negB]; decide
+theorem bvWidth_negB : Mk.bvWidth negB = .ok 4 := by
+  simp [Mk.bvWidth, negB, iteLeaf_plain]; rfl
+theorem bvWidth_catB : Mk.bvWidth catB = .ok 8 := by
+  simp [Mk.bvWidth, catB, iteLeaf_plain]; rfl
+theorem frag_negB : inHRFrag negB = true := by
+  rw [negB, inHRFrag_node]
+  simp only [List.map_cons, List.map_nil, List.all_cons, List.all_nil, b, frag_var "b" _ (by decide), id,
+    Bool.and_true, Bool.true_and]
+  obtain ⟨l, uo⟩ := uo_minus
+  simp only [fragNode, sh_bvNeg, uo, applyUnary, ty_var]
+  have := bvWidth_b
+  simp only [b] at this
+  simp [Mk.BVNeg, Mk.bvUn, this, bind, Except.bind, Mk.create, liftMk, isOk, ty_var]
+  decide
+theorem frag_catB : inHRFrag catB = true := by
+  rw [catB, inHRFrag_node]
+  simp only [List.map_cons, List.map_nil, List.all_cons, List.all_nil, b, frag_var "b" _ (by decide), frag_negB, id,
+    Bool.and_true, Bool.true_and]
+  obtain ⟨l, io⟩ := io_concat
+  simp only [fragNode, sh_bvConcat, io, applyInfix]
+  have h1 := bvWidth_b
+  simp only [b] at h1
+  simp [Mk.BVConcat, Mk.concat2, Mk.concatChain, bvWidth_negB, h1, bind, Except.bind, Mk.create, liftMk, isOk, ty_var,
+    ty_negB]
+  decide
+theorem frag_t9 : InHRFrag t9 := by
+  rw [InHRFrag, t9, inHRFrag_node]
+  simp only [List.map_cons, List.map_nil, List.all_cons, List.all_nil, frag_catB, id, Bool.and_true, Bool.true_and]
+  have ht : tight catB = true := by simp [catB, tight, sh_bvConcat]
+  simp only [fragNode, sh_bvExtract, ht, Bool.true_and, applyExtract, Term.int, intConstVal]
+  simp [Mk.BVExtract, bvWidth_catB, bind, Except.bind, Mk.create, liftMk, isOk, ty_catB]
+  decide
+
+/-! ## more bit-vector infix operators: `((b & b) xor (b << 1_4))` -/
+theorem sh_bvAnd : shapeOf .bvAnd = some (.naryInfix "&") := by decide
+theorem sh_bvXor : shapeOf .bvXor = some (.naryInfix "xor") := by decide
+theorem sh_bvLshl : shapeOf .bvLshl = some (.naryInfix "<<") := by decide
+theorem io_xor : ∃ l, infixOf "xor" = some ("mgr.BVXor", l) := of_map (by decide)
+theorem io_shl : ∃ l, infixOf "<<" = some ("mgr.BVLShl", l) := of_map (by decide)
+def andB : Term := .node .bvAnd [b, b] (.ints [4])
+def shlB : Term := .node .bvLshl [b, Term.bvc 1 4] (.ints [4])
+def t10 : Term := .node .bvXor [andB, shlB] (.ints [4])
+theorem ty_andB : andB.typeOf = some (.bv 4) := by
+  rw [andB, typeOf_node']; simp only [List.map_cons, List.map_nil, b, ty_var]; decide
+theorem ty_shlB : shlB.typeOf = some (.bv 4) := by
+  rw [shlB, typeOf_node']; simp only [List.map_cons, List.map_nil, b, ty_var, ty_bvc]; decide
+theorem bvWidth_andB : Mk.bvWidth andB = .ok 4 := by
+  simp [Mk.bvWidth, andB, iteLeaf_plain]; rfl
+theorem frag_andB : inHRFrag andB = true := by
+  rw [andB, inHRFrag_node]
+  simp only [List.map_cons, List.map_nil, List.all_cons, List.all_nil, b, frag_var "b" _ (by decide), id,
+    Bool.and_true, Bool.true_and]
+  obtain ⟨l, io⟩ := io_and
+  simp only [fragNode, sh_bvAnd, io, applyInfix, ty_var]
+  have := bvWidth_b
+  simp only [b] at this
+  simp [Mk.BVAnd, Mk.bvNary, Mk.bvChain, Mk.bvBin, this, bind, Except.bind, Mk.create, liftMk, isOk, ty_var]
+  decide
+theorem frag_shlB : inHRFrag shlB = true := by
+  rw [shlB, inHRFrag_node]
+  simp only [List.map_cons, List.map_nil, List.all_cons, List.all_nil, b, frag_var "b" _ (by decide), frag_bvc14, id,
+    Bool.and_true, Bool.true_and]
+  obtain ⟨l, io⟩ := io_shl
+  simp only [fragNode, sh_bvLshl, io, applyInfix]
+  have := bvWidth_b
+  simp only [b] at this
+  simp [Mk.BVLShl, Mk.shiftAmount, Mk.bvBin, this, bind, Except.bind, Mk.create, liftMk, isOk, ty_var, ty_bvc]
+  decide
+theorem frag_t10 : InHRFrag t10 := by
+  rw [InHRFrag, t10, inHRFrag_node]
+  simp only [List.map_cons, List.map_nil, List.all_cons, List.all_nil, frag_andB, frag_shlB, id, Bool.and_true,
+    Bool.true_and]
+  obtain ⟨l, io⟩ := io_xor
+  simp only [fragNode, sh_bvXor, io, applyInfix]
+  simp [Mk.BVXor, Mk.bvBin, bvWidth_andB, bind, Except.bind, Mk.create, liftMk, isOk, ty_andB, ty_shlB]
+  decide
+
+/-! ## a constant array: `Array{Int, Int}(0)` -/
+theorem sh_arrayValue : shapeOf .arrayValue = some .arrayValue := by decide
+def t11 : Term := .node .arrayValue [Term.int 0] (.ty .int)
+theorem frag_t11 : InHRFrag t11 := by
+  rw [InHRFrag, t11, inHRFrag_node]
+  simp only [List.map_cons, List.map_nil, List.all_cons, List.all_nil, frag_int, id, Bool.and_true, Bool.true_and]
+  simp only [fragNode, sh_arrayValue, ty_int, readableTy, Bool.true_and]
+  simp [Mk.Array, Mk.arrayArgs, bind, Except.bind, Mk.create, liftMk, isOk, ty_int]
+  decide
 
 end PySMT.HR.Ex
